@@ -140,7 +140,19 @@ func judgeC05(v *spec.View, in, out string) (sig, what string, nontrivial bool) 
 	inside, hasEl := markersInsideScriptStyle(in)
 	for _, m := range inside {
 		if strings.Contains(out, m) {
-			return "body-text", "text " + m + " from inside a script/style element of the input appears in the output", true
+			// Classify: did the sanitiser's own (context-free) tokenizer see the script/style tag at all, or was the
+			// tag swallowed as text of an RCDATA / raw-text element that the tree builder, inside svg/math, does
+			// not treat as such?
+			sig := "body-text"
+			for _, t := range obs.Retok(in) {
+				if t.Type == html.TextToken && strings.Contains(t.Data, m) {
+					l := strings.ToLower(t.Data)
+					if i := strings.Index(l, m); i >= 0 && (strings.Contains(l[:i], "<style") || strings.Contains(l[:i], "<script")) {
+						sig = "body-text|tag-swallowed-as-rcdata-text-in-foreign-content"
+					}
+				}
+			}
+			return sig, "text " + m + " from inside a script/style element of the input appears in the output", true
 		}
 	}
 	return "", "", hasEl
@@ -199,6 +211,19 @@ func runC05(c *run.Ctx) {
 				eval(numberMarkers(in))
 			}
 		})
+	}
+	// foreign content x RCDATA / raw-text element x script/style form: where tokenizer and tree builder disagree
+	for _, f := range []string{"<svg>", "<math>", "<svg><desc>", "<math><mtext>", "<svg><foreignobject>", "<math><annotation-xml>"} {
+		for _, r := range []string{"<textarea>", "<title>", "<xmp>", "<iframe>", "<noscript>", "<plaintext>", "<noembed>", "<noframes>", "<select>", "<table>", "<!--"} {
+			for _, s := range []string{"<script>", "<style>", "<script/>", "<style/>", "<SCRIPT>", "<style\n>", "<script src=x>", "<style media=all>"} {
+				for _, tail := range []string{"@", "@</style>@", "@</script></textarea>@"} {
+					doc := f + r + s + tail
+					if c.Own([]byte("c05foreign"), []byte(doc)) {
+						eval(numberMarkers([]byte(doc)))
+					}
+				}
+			}
+		}
 	}
 	// byte-level forms glued to the literal names
 	nb := 3
